@@ -85,6 +85,9 @@ def make_world(g, tag):
     w.add('end 90')
 
     def oracle(line, raw, ww):
+        for i in idx:
+            if any(k == 'X' for k, _ in Line(ww.impl[i]).events):
+                return 'op %d: the []byte passed by the caller was modified by the call (a second use of the same slice would fail)' % i
         fs = parse_fs(raw)
         if parse_fs(ww.impl[before]) != fs:
             return 'invalid JSON changed the directory'
